@@ -13,12 +13,14 @@ func init() { register("C02", "exploration", runC02) }
 // C02: what is uploaded is what is served. Differential monitor: generated upload / overwrite / delete programs over
 // a hostile name universe against the reference object model; the whole store is dumped and compared after every step.
 func runC02(run *common.Run) {
-	run.Rule = "case = one generated program (30-80 steps: uploads via media / multipart / resumable with random chunkings, status queries, overlapping re-sends, PUT and POST chunks, gzip request bodies, declared MD5 right/wrong/malformed; overwrites; deletes of live and absent names; metadata patches that send back a full, possibly stale, resource from an earlier GET and must leave content, size and MD5 as uploaded) over 2 buckets and 6 names + 2 decoys drawn from the hostile name universe, run on one store (memory or file); after every step the whole store is dumped (bucket GET, full listing, metadata GET and media GET of every universe name; all three URL forms for the name just touched, one rotating form for the others) and compared with the reference model. Non-trivial = the program overwrote a live object, deleted a live object, completed a resumable upload that needed >= 2 chunk requests and had an upload rejected for its MD5; distinct by hash of the executed step log x store."
+	run.Rule = "case = one generated program (30-80 steps: uploads via media / multipart / resumable with random chunkings, status queries, overlapping re-sends, PUT and POST chunks, gzip request bodies, declared MD5 right/wrong/malformed; after a resumable finalisation was rejected for its declared MD5 the client retries 1-3 times on the SAME session - the rejected request once more, the same bytes from offset 0, a bodiless finalising request, other non-matching bytes from offset 0 - which must never be acknowledged (308 or 4xx incl. 404/410) and must change nothing, and then possibly sends the bytes that do match, which is either refused or an upload of exactly those bytes; overwrites; deletes of live and absent names; metadata patches that send back a full, possibly stale, resource from an earlier GET and must leave content, size and MD5 as uploaded; PATCH bodies with a JSON type error that must be refused without a trace) over 2 buckets and 6 names + 2 decoys drawn from the hostile name universe, run on one store (memory or file); after every step the whole store is dumped (bucket GET, full listing, metadata GET and media GET of every universe name; all three URL forms for the name just touched, one rotating form for the others) and compared with the reference model. Non-trivial = the program overwrote a live object, deleted a live object, completed a resumable upload that needed >= 2 chunk requests and had an upload rejected for its MD5; distinct by hash of the executed step log x store."
 	run.Assumptions = []string{
 		"reference object model written from the statement and the public JSON API; generations are learned from responses",
 		"resumable chunks are sent to the session URL with PUT; POST only to the Location URL the emulator itself issued (well-formed names)",
 		"after a 308 the client continues from the offset the server reports in Range (as the protocol requires); Range must never exceed the bytes sent",
-		"re-sent ranges carry the same bytes as the first transmission",
+		"re-sent ranges carry the same bytes as the first transmission, except on a session whose finalisation was already rejected for its declared MD5: there the client may start over from offset 0 with other bytes",
+		"a retry on a rejected session is judged against the MD5 declared when the session was opened: non-matching bytes => not acknowledged (308, 4xx; 404/410 'no such session' included), store unchanged; matching bytes => refused (nothing changed) or acknowledged as an upload of exactly those bytes",
+		"multipart / resumable metadata may carry acl / owner / retention / customerEncryption; nothing is demanded about them except that failed requests leave whatever is shown for them unchanged",
 		"content type is demanded only when the request supplied one (media: Content-Type header; multipart: metadata and/or media part header; resumable: metadata)",
 		"file store: only names representable as files next to the live names are written or deleted (DESIGN C02/C09); every universe name is still read",
 		"names altered by path cleaning and, for the public URL form, names holding a b/<x>/o segment run are outside the generated space",
@@ -61,8 +63,8 @@ func c02Program(run *common.Run, idx int, store string, universe []string) {
 	}
 	pool := append([]string(nil), universe...)
 	common.Shuffle(r, pool)
-	o := &progOpts{Buckets: []string{"vb1", "vb2"}, Names: pool[:6], FileRules: store == "file", MD5Pct: 45, BigPerMille: 12,
-		W: map[string]int{"upload": 40, "overwrite": 22, "delete": 22, "delete_absent": 6, "patch_full": 5, "bucket_cycle": 3, "noop": 4}}
+	o := &progOpts{Buckets: []string{"vb1", "vb2"}, Names: pool[:6], FileRules: store == "file", MD5Pct: 45, BigPerMille: 12, ExtraPct: 20,
+		W: map[string]int{"upload": 40, "overwrite": 22, "delete": 22, "delete_absent": 6, "patch_full": 5, "patch_bad": 3, "bucket_cycle": 3, "noop": 4}}
 	for _, b := range o.Buckets {
 		if msg := e.createBucket(b); msg != "" {
 			fail(msg)
